@@ -292,7 +292,7 @@ pub fn generate(rng: &mut Rng, property: &str, deep: bool) -> Scn {
     let spec = gen_anim_spec(rng, &knobs);
     let mut tk = gen_trace_knobs(rng, &knobs, extreme, fault_free);
     // thorough tier: a third of the runs use long histories (deeper bounds)
-    if deep && rng.chance(0.33) {
+    if (deep && rng.chance(0.33)) || rng.chance(0.04) {
         tk.n_ops = rng.range(48, 200) as usize;
     }
     let mut book = Book {
